@@ -52,6 +52,13 @@ def connect_cases():
         ("auth BYE", G + b'BYE "x"\r\n', {}, "error"),
         ("auth OK", G + b"OK\r\n", {}, "b1"),
         ("auth OK literal", G + b"OK {2}\r\nhi\r\n", {}, "b1"),
+        # multi-step SASL LOGIN: challenge lines, then the verdict — at whichever step it comes
+        ("login NO at once", G + b'NO "no login here"\r\n', {"mech": "LOGIN"}, "b0"),
+        ("login NO after the user name", G + b'"VXNlcm5hbWU6"\r\nNO (AUTH-TOO-WEAK) "bad user"\r\n', {"mech": "LOGIN"}, "b0"),
+        ("login NO literal after the user name", G + b'"VXNlcm5hbWU6"\r\nNO {8}\r\nbad user\r\n', {"mech": "LOGIN"}, "b0"),
+        ("login NO after the password", G + b'"VXNlcm5hbWU6"\r\n"UGFzc3dvcmQ6"\r\nNO "bad password"\r\n', {"mech": "LOGIN"}, "b0"),
+        ("login BYE after the user name", G + b'"VXNlcm5hbWU6"\r\nBYE "too many"\r\n', {"mech": "LOGIN"}, "error"),
+        ("login OK", G + b'"VXNlcm5hbWU6"\r\n"UGFzc3dvcmQ6"\r\nOK\r\n', {"mech": "LOGIN"}, "b1"),
         ("starttls NO", G + b'NO "no tls"\r\n', {"starttls": True}, "b0"),
         ("starttls BYE", G + b"BYE\r\n", {"starttls": True}, "error"),
     ]
@@ -120,12 +127,14 @@ def run(ctx):
                          "what": "after a previous reply %r: %s" % (r1[:60], bad)})
     for name, stream, kw, want in connect_cases():
         s = msref.Session()
-        out = s.connect(stream, [], "user", "pw", starttls=kw.get("starttls", False))
-        lines += ["c op=new", msref.req_connect(stream, [], "user", "pw", starttls=kw.get("starttls", False))]
+        out = s.connect(stream, [], "user", "pw", starttls=kw.get("starttls", False), mech=kw.get("mech"))
+        lines += ["c op=new", msref.req_connect(stream, [], "user", "pw", starttls=kw.get("starttls", False), mech=kw.get("mech"))]
         expect += ["ok", out]
         evals += 1
         if ("res=" + want) not in out:
             viol.append({"op": "connect", "case": name, "reply": stream.decode("latin-1")[-60:], "what": "connect (%s): expected %s, got %s" % (name, want, out[:80])})
+        if name == "login NO after the user name" and bytes(b"bad user").hex() not in out:
+            viol.append({"op": "connect", "case": name, "what": "connect (%s): errmsg is not the text of that NO: %s" % (name, out[:160])})
         if want != "b1" and "auth=b1" in out:
             viol.append({"op": "connect", "case": name, "what": "connect (%s) failed but the client is marked authenticated" % name})
     model = run_driver(lines, live_table=False)
